@@ -140,6 +140,15 @@ def _live_atoms(F, atom_list):
     return {a for a in atom_list if not (a.startswith("call:") and a[5:] not in cur)}
 
 
+# adaptors that let only part of a collection through: new ones on the way into a state-changing call are reported (`args` facet)
+NARROW = re.compile(r"^call:(?:Iterator|DoubleEndedIterator|slice|Vec|VecDeque|Itertools)::(filter|filter_map|take|skip|take_while|skip_while|step_by|truncate|retain|split_off|drain|"
+                    r"dedup|dedup_by|dedup_by_key|chunks_exact|rchunks_exact|zip|nth|last|find|find_map|unique|split_at|split_first|split_last)$")
+
+
+def _narrow(e):
+    return sorted({"narrow:" + NARROW.match(a).group(1) for a in atoms(e) if NARROW.match(a)})
+
+
 GATE = ("try", "match", "match-far", "isok", "bool", "plain-return")
 
 
@@ -220,7 +229,7 @@ def summarize(F, key):
         keep = [c for c in blst if (c["sink"] and (c["ws"] or _recv_is_state(fn, c["t"], ex))) or (c["ws"] and _swap_prone(F, c["t"]))]
         if not keep:
             continue
-        args[bk] = [[_stab(F, ex.operand(a)) for a in c["t"]["args"][:6]] for c in keep]
+        args[bk] = [[_stab(F, ex.operand(a)) + _narrow(ex.operand(a)) for a in c["t"]["args"][:6]] for c in keep]
     # guards: every real branch condition - `?`, log-level tests and loop headers excluded
     conds = {}
     guards = []
@@ -267,6 +276,31 @@ def summarize(F, key):
                         found.append([sig, v])
         if found:
             silent[bk] = sorted(found, key=lambda g: json.dumps(g))
+    # rejects: the branch outcomes every construction of a named error variant is control dependent on (a rejection must keep consulting
+    # the checks it was decided by: `Orphan` only after the parent was looked up, `OldBlock` only for a block that is in the store)
+    rejects = {}
+    var_blocks = collections.defaultdict(set)
+    for bi, b in enumerate(fn["blocks"]):
+        if b["cleanup"] or bi not in live:
+            continue
+        for st in b["st"]:
+            if st["k"] == "assign" and st["rv"]["r"] == "agg" and "adt" in st["rv"]:
+                adt = st["rv"]["adt"]
+                if re.search(r"(Error|ErrorKind)$", adt) and WS.match(norm(adt)):
+                    var_blocks[short(adt, 1) + "::" + st["rv"]["variant"]].add(bi)
+    for var, tg in sorted(var_blocks.items()):
+        found = []
+        for bi, (sig, am, els) in conds.items():
+            outs = [(v, t2) for v, t2 in am.items()] + [("else", els)]
+            if len({t2 for _v, t2 in outs}) < 2:
+                continue
+            for v, t2 in outs:
+                others = [(bi, x) for _w, x in outs if x != t2]
+                if reach(fn, [0], tg, others) is not None and reach(fn, [0], tg, [(bi, t2)]) is None:
+                    if sig not in found:
+                        found.append(sig)
+        if found:
+            rejects[var] = sorted(found, key=lambda g: json.dumps(g))
     # assigns: origins of every value stored into a field of a parameter (`self.size = ..`, `trees.bitmap_accumulator = ..`)
     assigns = {}
     for bi, b in enumerate(fn["blocks"]):
@@ -304,7 +338,7 @@ def summarize(F, key):
         universe |= set(_stab(F, ex.local(0, 0, ())))
     gates = sorted({c["key"] for c in calls if c["kind"] in GATE or c["sink"]})
     return {"must": must, "order": order, "args": args, "guards": guards, "silent": silent, "assigns": assigns, "ret": ret,
-            "consts": const_census(fn), "universe": sorted(universe), "gates": gates}
+            "consts": const_census(fn), "universe": sorted(universe), "gates": gates, "rejects": rejects}
 
 
 ALLOC_HINT = re.compile(r"::(with_capacity|reserve|reserve_exact)$")
@@ -527,8 +561,9 @@ def generate(F, prop_record, named_elsewhere=()):
         if k not in named and k in named_elsewhere:
             continue
         s = summarize(F, k)
-        if s["must"] or s["order"] or s["args"] or s["guards"] or s["assigns"] or s["ret"] or s["consts"]:
+        if s["must"] or s["order"] or s["args"] or s["guards"] or s["assigns"] or s["ret"] or s["consts"] or s["rejects"]:
             s["named"] = k in named
+            s["narrow_checked"] = True
             s["closure"] = F.fns[k]["kind"] == "Closure"
             base_k = re.sub(r"(::\{closure#\d+\})+$", "", k)
             s["callers"] = sorted({_closure_role(F, c) for name in (k, strip_impl(k)) for (c, _bi) in F.callers.get(name, []) if c != k})[:12] if not s["closure"] else []
@@ -763,8 +798,13 @@ def check(ctx, prop):
                 for base_alt in balts:
                     if len(base_alt) != len(cur_alt):
                         continue
-                    miss = [sorted(_live_atoms(F, bx) - set(cy) - ({a for a in bx if a.startswith("arg")} if x != k else set())) for bx, cy in zip(base_alt, cur_alt)]
+                    miss = [sorted({a for a in _live_atoms(F, bx) if not a.startswith("narrow:")} - set(cy) - ({a for a in bx if a.startswith("arg")} if x != k else set())) for bx, cy in zip(base_alt, cur_alt)]
                     if not any(miss):
+                        # a new filtering / truncating adaptor on the way into the call: part of the data no longer reaches the state change
+                        extra = [sorted({a for a in cy if a.startswith("narrow:")} - set(bx)) for bx, cy in zip(base_alt, cur_alt)]
+                        if any(extra) and "narrow_checked" in b:
+                            best = [["+" + a for a in ex_] for ex_ in extra]
+                            break
                         okay = True
                         break
                     if best is None or sum(map(len, miss)) < sum(map(len, best)):
@@ -773,7 +813,8 @@ def check(ctx, prop):
                     continue
                 bad += 1
                 ctx.record("baseline-args", "R9", k, "%s: arguments of %s keep their origins" % (short(k, 2), bc), "violation", [where],
-                           ["argument %d no longer derives from %s (now from %s)" % (i, d, cur_alt[i][:8]) for i, d in enumerate(best) if d],
+                           [("argument %d now passes through the new narrowing adaptor(s) %s: part of the data no longer reaches %s" % (i, d, bc)) if d and d[0].startswith("+") else
+                            ("argument %d no longer derives from %s (now from %s)" % (i, d, cur_alt[i][:8])) for i, d in enumerate(best) if d],
                            key_detail="args:" + bc)
         # ---- guards
         parent = roles.get(role.split("@")[0]) if b.get("closure") else None
@@ -818,6 +859,27 @@ def check(ctx, prop):
                 ctx.record("baseline-silent", "R9", k, "%s: %s is not skipped under a new condition" % (short(k, 2), bk), "violation", [where],
                            ["%s is now reached only when %s(%s ; %s) takes arm %s, and the other outcome carries on without it (on the confirmed tree it was not conditional on this)"
                             % (bk, sig[0], sig[1], sig[2], arm)], key_detail="silent:%s:%s" % (_short_callee(bk), sig[0]))
+        # ---- rejects: a named rejection keeps depending on the outcomes it depended on
+        for var, bsigs in b.get("rejects", {}).items():
+            csigs = cur.get("rejects", {}).get(var)
+            if csigs is None:
+                continue  # the variant is no longer constructed here (moved into a helper, or the rejection is gone: a guard/must matter)
+            ccores = [_core(F, cg) for cg in csigs]
+            for bs in bsigs:
+                bc = _core(F, bs)
+                if not bc:
+                    continue
+                n["rejects"] += 1
+                if any(bc <= cc for cc in ccores):
+                    continue
+                calls = {a for a in bc if a.startswith("call:")}
+                if calls and any(calls <= cc for cc in ccores) and bs[0] == "branch":
+                    continue
+                bad += 1
+                ctx.record("baseline-reject", "R9", k, "%s: the rejection %s still depends on %s(%s ; %s)" % (short(k, 2), var, bs[0], ",".join(bs[1])[:70], ",".join(bs[2])[:50]), "violation", [where],
+                           ["on the confirmed tree every construction of %s in %s was control dependent on an outcome of %s(%s ; %s); now %s is reachable without consulting it "
+                            "(the rejection was hoisted above / detached from the check that justified it); it now depends on: %s" % (var, k, bs[0], bs[1], bs[2], var, csigs[:3])],
+                           key_detail="reject:%s:%s:%s" % (var, bs[0], ",".join(sorted(bc))[:70]))
         # ---- assigns
         for field, alts in b.get("assigns", {}).items():
             cur_alts = cur.get("assigns", {}).get(field)
